@@ -267,6 +267,26 @@ def check_geometry(rec: dict, rng: random.Random, report, *, corrupt: str | None
                                      "specified": want[0].tolist()[:40]})
     except Exception as ex:
         report("LikeSynaptic", {"raised": type(ex).__name__, "msg": str(ex)[:200], "cfg": cfg})
+    # the same round trip on spike counts and spikes: integer and boolean inputs ("for all input tensors")
+    nin = B * int(np.prod(rec["inshape"]))
+    for dt_ in (torch.int64, torch.uint8, torch.int32, torch.bool, torch.float64):
+        if dt_ == torch.bool:
+            xd = ((torch.arange(nin) % 3) != 1).reshape(B, *rec["inshape"])
+        else:
+            xd = ((torch.arange(nin) % 97) + 1).to(dt_).reshape(B, *rec["inshape"])
+        n += 1
+        try:
+            rt = conn.like_input(conn.like_synaptic(xd))
+            cov = np.unique(syn[syn[:, 2] >= 0, 2])
+            got = rt.to(torch.float64).numpy().reshape(B, -1)[:, cov]
+            want = xd.to(torch.float64).numpy().reshape(B, -1)[:, cov]
+            if tuple(rt.shape) != (B, *rec["inshape"]) or not np.array_equal(got, want):
+                report("RoundTrip", {"cfg": cfg, "dtype": str(dt_), "covered": cov.tolist()[:40], "observed": got[0].tolist()[:40],
+                                     "specified": want[0].tolist()[:40]})
+                break
+        except Exception as ex:
+            report("RoundTrip", {"raised": type(ex).__name__, "msg": str(ex)[:200], "cfg": cfg, "dtype": str(dt_)})
+            break
 
     def view(name, fn, dshape, rshape, pairs):
         nonlocal n
